@@ -103,6 +103,7 @@ func c04(c *eng.Ctx, r *eng.Report) {
 		"R4.5/R4.6 RevertToSnapshot undoes entries from the last down to the snapshot index inclusive and truncates both journal and revision list; Snapshot records len(journal). " +
 		"R4.7 every state read that feeds a member of a journal entry happens before any write (direct or through a package callee) to the same field in that mutator — the entry captures the pre-state. " +
 		"R4.8 an account object is always either in the dirty set or has its one-shot onDirty hook armed: whoever takes an address out of accountObjectsDirty re-arms the hook of that object or drops the object from the cache (undo of a touch, undo of a creation, Commit), whoever replaces the dirty set replaces the object cache with it, and the hook is cleared only right after it was called — otherwise writes made after a revert are never marked dirty and the root computed afterwards lacks them. " +
+		"R4.9 the access-list undo helpers are the exact inverses of what was journaled: an address leaves accessList.addresses only in DeleteAddress (the inverse of AddAddress), and DeleteSlot — the inverse of adding a slot to an address already present — only resets that address's slot index to -1, it never removes the address. " +
 		"Not decided: value equality of every query after revert; equality of state roots."
 	r.Assume = []string{"state reachable through the account package's API lives in the fields listed in rules/c04.go (journaledFields)", "sync.Map/maps are only written through the recognised instructions"}
 	c04Writers(c, r)
@@ -112,6 +113,7 @@ func c04(c *eng.Ctx, r *eng.Report) {
 	c04Revert(c, r)
 	c04PreState(c, r)
 	c04DirtyOrArmedAs(c, r, "R4.8")
+	c04AccessListInverses(c, r)
 }
 
 func shortStruct(t string) string { return strings.TrimPrefix(t, "storage/account.") }
@@ -1056,4 +1058,39 @@ func unload(v ssa.Value) ssa.Value {
 		return u.X
 	}
 	return v
+}
+
+// c04AccessListInverses: AddSlot on a warm address journals only the slot
+// entry; undoing it must leave the address warm.
+func c04AccessListInverses(c *eng.Ctx, r *eng.Report) {
+	const rule = "R4.9"
+	r.Min(rule, 2)
+	nDel, nSet := 0, 0
+	for _, fn := range c.PkgFuncs(acctPkg) {
+		if c.IsTestFunc(fn) {
+			continue
+		}
+		name := strings.ReplaceAll(eng.FuncName(fn), "storage/account.", "")
+		for _, b := range fn.Blocks {
+			for _, in := range b.Instrs {
+				switch x := in.(type) {
+				case *ssa.Call:
+					if eng.CallName(&x.Call) != "builtin:delete" {
+						continue
+					}
+					if t, f := eng.FieldOf(unload(x.Call.Args[0])); shortStruct(t) == "accessList" && f == "addresses" {
+						nDel++
+						r.Check(name == "(*accessList).DeleteAddress", rule, "addresses-delete:"+name, c.Pos(x.Pos()), "an address leaves the access list only through DeleteAddress", eng.FuncName(fn)+" deletes an entry of accessList.addresses: only DeleteAddress — the undo of AddAddress — may; the undo of a slot addition on an address that was already warm would otherwise make AddressInAccessList answer false after the revert although it answered true when the snapshot was taken")
+					}
+				case *ssa.MapUpdate:
+					if t, f := eng.FieldOf(unload(x.Map)); shortStruct(t) == "accessList" && f == "addresses" && name == "(*accessList).DeleteSlot" {
+						nSet++
+						k, isK := eng.ConstInt(x.Value)
+						r.Check(isK && k == -1, rule, "addresses-reset:"+name, c.Pos(x.Pos()), "DeleteSlot resets the address's slot index to -1", "DeleteSlot writes "+eng.Desc(x.Value)+" as the slot index of the address instead of -1 (no slots): the address's entry no longer says what it said before the slot was added")
+					}
+				}
+			}
+		}
+	}
+	r.Check(nDel >= 1 && nSet >= 1, rule, "access-list:sites", "", fmt.Sprintf("%d deletions from addresses, %d index resets in DeleteSlot", nDel, nSet), fmt.Sprintf("access-list undo helpers not recognised (%d deletions from addresses, %d index resets in DeleteSlot; 1 and 1 expected)", nDel, nSet))
 }
